@@ -405,7 +405,7 @@ DecEmsg(b, k) ==
 -----------------------------------------------------------------------------
 (* iTunes-style metadata: udta / meta (FullBox, or QuickTime style without version/flags) /
    hdlr / ilst / item / data.  data: type indicator (u32), locale (u32), payload *)
-EncData(v) == Box(DATA, BE(v.data_type, 4) \o Zeros(4) \o v.data)
+EncData(v) == Box(DATA, ToBE(v.data_type, 4) \o Zeros(4) \o v.data)
 CanData(b, k) == k.s - k.h >= 8
 DecData(b, k) == [ data_type |-> n32(b, PayloadLo(k)), data |-> raw(b, PayloadLo(k) + 8, k.s - k.h - 8) ]
 =============================================================================
